@@ -191,11 +191,28 @@ def check_branch_conditioning(ctx, tu):
                         env[v['id']] = tu.kids(v)[-1]
         # guards of each block: walk the dominator chain through branch edges
         preds = g.preds()
+        def pivot_arg(x):
+            """argument that reaches rsqrt at this call: rsqrt(t) itself, or helper(t) whose body takes rsqrt of its parameter"""
+            if x.get('kind') not in ('CallExpr', 'CXXMemberCallExpr'):
+                return None
+            args = tu.call_parts(x)[2]
+            if tu.sd(x).get('q', '').split('::')[-1] == 'rsqrt' and args:
+                return args[0]
+            cf = tu.callee_fn(x)
+            if cf is not None and tu.body(cf) is not None and len(cf.get('params', [])) == 1 and len(args) == 1 \
+                    and cf['q'].startswith('rkcommon::math::'):
+                for y in tu.walk(tu.body(cf)):
+                    if y.get('kind') == 'CallExpr' and tu.sd(y).get('q', '').split('::')[-1] == 'rsqrt':
+                        a0 = tu.strip(tu.call_parts(y)[2][0], casts=True)
+                        if a0 is not None and a0.get('kind') == 'DeclRefExpr' and a0['referencedDecl'].get('id') == cf['params'][0]['id']:
+                            return args[0]
+            return None
+
         for b, i, x in g.stmts():
-            if x.get('kind') != 'CallExpr' or tu.sd(x).get('q', '').split('::')[-1] != 'rsqrt':
+            arg = pivot_arg(x)
+            if arg is None:
                 continue
             n += 1
-            arg = tu.call_parts(x)[2][0]
             inst = '%s: rsqrt(%s) at %s' % (f.get('rect', f['q']).replace('rkcommon::math::', ''), tu.show(arg), tu.loc(x))
             key = '%s|rkcommon/math/Quaternion.h|QuaternionT(vx,vy,vz)|ill-conditioned-branch' % R
             try:
@@ -262,45 +279,54 @@ def check_slerp(ctx, tu):
         inst = 'slerp %s' % f['fty'].replace('rkcommon::math::', '')
         key = '%s|rkcommon/math/Quaternion.h|slerp|' % R
         pa = f['params'][1]['id']
-        # hemisphere test: a branch on `<local scalar> < 0`
+        body = tu.body(f)
+        # locals initialised from a dot product
+        dots = set()
+        for v in tu.walk(body):
+            if v.get('kind') == 'VarDecl' and tu.kids(v) and any(
+                    x.get('kind') == 'CallExpr' and tu.sd(x).get('q', '').split('::')[-1] == 'dot' for x in tu.walk(tu.kids(v)[-1])):
+                dots.add(v['id'])
+        # hemisphere test: a comparison `<dot local> < 0` (either as a branch condition or stored in a bool)
         hemi = None
-        for b in g.blocks.values():
-            if b.cond is None or len(b.succ) != 2:
-                continue
-            c = tu.strip(tu.node(b.cond), casts=True)
-            if c is not None and c.get('kind') == 'BinaryOperator' and c.get('opcode') in ('<', '>'):
+        for c in tu.walk(body):
+            if c.get('kind') == 'BinaryOperator' and c.get('opcode') in ('<', '>'):
                 l, r = tu.kids(c)
                 if c['opcode'] == '>':
                     l, r = r, l
-                lv = tu.strip(l, casts=True)
-                rv = tu.strip(r, casts=True)
-                if lv.get('kind') == 'DeclRefExpr' and rv.get('kind') in ('FloatingLiteral', 'IntegerLiteral', 'CXXFunctionalCastExpr') \
-                        and float(rv.get('value', 1) or 1) == 0.0:
-                    hemi = b
-        if hemi is None:
-            ctx.undecided(R, inst, 'no `d < 0` hemisphere test recognised', tu.fn_loc(f))
+                lv, rv = tu.strip(l, casts=True), tu.strip(r, casts=True)
+                if lv.get('kind') == 'DeclRefExpr' and lv['referencedDecl'].get('id') in dots \
+                        and rv.get('kind') in ('FloatingLiteral', 'IntegerLiteral') and float(rv.get('value', 1) or 1) == 0.0:
+                    hemi = c
+                    break
+        if hemi is None or g.where(hemi['id']) is None:
+            ctx.undecided(R, inst, 'no `d < 0` hemisphere test on the dot product recognised', tu.fn_loc(f))
             continue
-        dom = g.dominators()
+        hpos = g.where(hemi['id'])
         bad = False
-        for b, i, x in g.stmts():
-            if x.get('kind') == 'ReturnStmt' and hemi.id not in dom.get(b.id, ()):
+        for b, i2, x in g.stmts():
+            if x.get('kind') == 'ReturnStmt' and not g.dominates(hpos, (b.id, i2)):
                 bad = True
-                ctx.violation(R, inst, 'a result is returned at %s on a path that never passed the hemisphere test `%s`: for inputs with a negative '
-                              'dot product the interpolation goes the long way round / through the origin' % (tu.loc(x), tu.show(tu.node(hemi.cond))),
+                ctx.violation(R, inst, 'a result is returned at %s on a path that never evaluated the hemisphere test `%s`: for inputs with a negative '
+                              'dot product the interpolation goes the long way round / through the origin' % (tu.loc(x), tu.show(hemi)),
                               tu.loc(x), key=key + 'return-before-hemisphere-fix')
-        uses = [x for x in tu.walk(tu.body(f)) if x.get('kind') == 'DeclRefExpr' and x.get('referencedDecl', {}).get('id') == pa]
-        inits = 0
+        uses = [x for x in tu.walk(body) if x.get('kind') == 'DeclRefExpr' and x.get('referencedDecl', {}).get('id') == pa]
         for u in uses:
             p = tu.par(u)
+            okuse = False
             hops = 0
-            while p is not None and p.get('kind') in ('ImplicitCastExpr', 'CXXConstructExpr', 'ExprWithCleanups', 'MaterializeTemporaryExpr') and hops < 6:
+            while p is not None and hops < 12:
+                k = p.get('kind')
+                if k == 'VarDecl':
+                    okuse = True       # initialises a local (the corrected copy, or the dot product)
+                    break
+                if k == 'CallExpr' and tu.sd(p).get('q', '').split('::')[-1] == 'dot':
+                    okuse = True
+                    break
+                if k in ('ReturnStmt', 'CompoundStmt', 'IfStmt'):
+                    break
                 p = tu.par(p)
                 hops += 1
-            if p is not None and p.get('kind') == 'VarDecl':
-                inits += 1
-            elif p is not None and p.get('kind') == 'CallExpr' and tu.sd(p).get('q', '').split('::')[-1] == 'dot':
-                pass        # the dot product may be taken from the parameter
-            else:
+            if not okuse:
                 bad = True
                 ctx.violation(R, inst, 'the uncorrected parameter `%s` is used at %s outside the initialisation of the local copy: the '
                               'hemisphere correction is bypassed' % (f['params'][1]['name'], tu.loc(u)), tu.loc(u), key=key + 'uncorrected-operand-used')
